@@ -7,7 +7,7 @@ import ast
 from vlib.core import AnalysisError, Report
 from vlib.flow import enclosing_tries, handler_raises, handler_types, parent_map, raised_name, stmt_of
 from vlib.nodemodel import NodeModel
-from vlib.srcindex import SourceIndex, attr_chain, unparse, walk_no_nested
+from vlib.srcindex import SourceIndex, attr_chain, mangle, unparse, walk_no_nested
 from vlib.typer import Typer
 
 EXPLANATION = (
@@ -560,6 +560,20 @@ def rule_h(rep: Report, idx: SourceIndex) -> None:
 				r.check(swallowed(f, hit), f'{f.qualname}:{unparse(hit)[:40]}', (m.relpath, hit.lineno), f'{f.qualname} stringifies an error argument with `{unparse(hit)[:60]}` outside any `except Exception` that does not re-raise: __str__ of a node / reflection resolves names lazily and raises again for the element that caused the error (`class A([int]): ...`, `for a in {{a: True}} + print: pass`), so str(ErrorRender(e)) raises and the interactive loop ends', unparse(hit)[:80])
 	if sites == 0:
 		r.skip('args-stringified', cls.where, 'ErrorRender no longer stringifies the elements of e.args in a recognised form')
+	# the quotation of the reported node: the span comes from the parser and can be incomplete (a block closed by the end of the file has no end
+	# position: `{'end': (None, None)}`), the file can be shorter than the span says. Arithmetic on the span components and the construction of the
+	# quotation must not take the whole error report down
+	bq = methods.get('__build_quotation') or methods.get(mangle('ErrorRender', '__build_quotation'))
+	if bq is None:
+		r.skip('quotation-protected', cls.where, 'ErrorRender.__build_quotation vanished')
+	else:
+		risky = [n for n in ast.walk(bq.node) if (isinstance(n, ast.BinOp) and 'source_map' in unparse(n)) or (isinstance(n, ast.Call) and unparse(n.func).endswith('Quotation'))]
+		risky += [n for n in ast.walk(bq.node) if isinstance(n, ast.Call) and isinstance(n.func, ast.Attribute) and n.func.attr == 'build']
+		if not risky:
+			r.skip('quotation-protected', bq.where, '__build_quotation no longer computes on node.source_map / builds a Quotation')
+		else:
+			bad = [n for n in risky if not swallowed(bq, n)]
+			r.check(not bad, 'quotation-protected', (m.relpath, (bad[0] if bad else risky[0]).lineno), f'`{unparse(bad[0])[:60] if bad else ""}` in __build_quotation is outside any `except Exception` that does not re-raise: for a node whose position is incomplete (a function that ends with the file: `def f():\\n\\tpass\\n\\t` gives end = (None, None)) the arithmetic raises TypeError and the error report itself fails instead of printing the error', unparse(bad[0])[:80] if bad else '')
 
 
 # ---- (i) results of "may return None" lookups are tested before use ------------------------------------------------------------------------
@@ -819,7 +833,7 @@ def rule_load_boundary(rep: Report, idx: SourceIndex) -> bool:
 	IndexError in DictType.primary_type). Nothing below converts these; Modules.load is the one place every load passes through. Its handler must turn
 	anything that is not an Errors.Error into one (and still discard the half-loaded module, C04)."""
 	from vlib.match import nodes
-	r = rep.rule('C07/load-boundary-converts', 'in Modules.load the dependency load and the preprocessing lie in a try that re-raises Errors.Error unchanged and converts every other Exception into an Errors.* exception', floor=2)
+	r = rep.rule('C07/load-boundary-converts', 'in Modules.load the loader call, the dependency load and the preprocessing lie in a try that re-raises Errors.Error unchanged and converts every other Exception into an Errors.* exception', floor=3)
 	m = idx.mod('rogw/tranp/module/modules.py')
 	f = m.func('Modules.load')
 	rep.consulted(m.relpath)
@@ -827,7 +841,7 @@ def rule_load_boundary(rep: Report, idx: SourceIndex) -> bool:
 		r.skip('Modules.load', (m.relpath, 1), 'Modules.load vanished')
 		return False
 	pm_ = parent_map(f.node)
-	sites = [c_ for c_ in nodes(f.node, ast.Call) if isinstance(c_.func, ast.Attribute) and c_.func.attr in ('preprocess', '__load_dependencies') or (isinstance(c_.func, ast.Attribute) and c_.func.attr.endswith('__load_dependencies'))]
+	sites = [c_ for c_ in nodes(f.node, ast.Call) if isinstance(c_.func, ast.Attribute) and (c_.func.attr in ('preprocess', '__load_dependencies') or c_.func.attr.endswith('__load_dependencies') or (c_.func.attr == 'load' and unparse(c_.func.value).endswith('__loader')))]
 	if not sites:
 		r.skip('Modules.load', f.where, 'Modules.load no longer calls __load_dependencies / preprocess')
 		return False
